@@ -178,6 +178,8 @@ def freq_to_voicing(frequencies, voicing=None):
 
     """
     if voicing is not None:
+        # Work on a copy: the caller's voicing array must not be modified
+        voicing = np.array(voicing, dtype=float)
         voicing[frequencies == 0] = 0
     else:
         voicing = (frequencies > 0).astype(float)
